@@ -14,6 +14,11 @@ void wrap_arm(long k);
 /* 1 if the armed fault has fired since it was armed */
 int wrap_fired(void);
 int wrap_available(void);
+/* select the allocator domain that is counted / failed: 0 library (libc wrappers), 1 SQLite, 2 ICU */
+void wrap_domain(int d);
+/* requests are counted / failed only while the gate is open (the executor opens it around the API call under test) */
+void wrap_gate(int on);
+int wrap_should_fail(int dom);
 
 /* harness-private allocation that is never counted or failed */
 void *h_malloc(size_t n);
